@@ -103,6 +103,74 @@ func normaliseNotif(msg string) string {
 	return m.Method + " uri=" + m.Params.URI + " [" + strings.Join(ds, ", ") + "]"
 }
 
+// libraryDiagnostics: what the analysis of the text reports, as range|severity|message keys
+// (sorted); ok=false when the analysis panics.
+func libraryDiagnostics(text string) ([]string, bool) {
+	a := analyse(text)
+	if a.panic != "" {
+		return nil, false
+	}
+	var out []string
+	for _, d := range a.raw {
+		out = append(out, fmt.Sprintf("%d:%d-%d:%d|%d|%s", d.Range.Start.Line, d.Range.Start.Character, d.Range.End.Line, d.Range.End.Character, d.Kind.Severity(), d.Kind.Message()))
+	}
+	sort.Strings(out)
+	return out, true
+}
+
+// publishedDiagnostics decodes the diagnostics of a normalised notification into the same keys.
+func publishedDiagnostics(n string) ([]string, bool) {
+	i := strings.Index(n, " [")
+	if i < 0 {
+		return nil, false
+	}
+	var ds []struct {
+		Range struct {
+			Start, End struct{ Line, Character int }
+		}
+		Severity int
+		Message  string
+	}
+	if json.Unmarshal([]byte(n[i+1:]), &ds) != nil {
+		return nil, false
+	}
+	var out []string
+	for _, d := range ds {
+		out = append(out, fmt.Sprintf("%d:%d-%d:%d|%d|%s", d.Range.Start.Line, d.Range.Start.Character, d.Range.End.Line, d.Range.End.Character, d.Severity, d.Message))
+	}
+	sort.Strings(out)
+	return out, true
+}
+
+// heldMatchesLibrary: the set the client holds for a text is the set the analysis reports.
+func heldMatchesLibrary(have, text string) (string, bool) {
+	lib, ok := libraryDiagnostics(text)
+	if !ok {
+		return "", true
+	}
+	pub, ok := publishedDiagnostics(have)
+	if !ok {
+		return "the published diagnostics cannot be decoded: " + have, false
+	}
+	if strings.Join(lib, "\n") != strings.Join(pub, "\n") {
+		return fmt.Sprintf("the client holds %v, the analysis of the latest text reports %v", pub, lib), false
+	}
+	return "", true
+}
+
+// notifURI extracts the uri of a normalised notification.
+func notifURI(n string) string {
+	i := strings.Index(n, " uri=")
+	if i < 0 {
+		return ""
+	}
+	rest := n[i+5:]
+	if j := strings.Index(rest, " ["); j >= 0 {
+		return rest[:j]
+	}
+	return rest
+}
+
 func normaliseSymbols(resp string) string {
 	var arr []json.RawMessage
 	if json.Unmarshal([]byte(resp), &arr) != nil {
@@ -195,6 +263,8 @@ func lspTextPool(t *rapid.T, tier string) []string {
 	text, toks := baseText(t, tier)
 	broken, _ := mutateText(t, text, toks)
 	pool = append(pool, broken, "", "send [USD 1] (source = $nosuch destination = @b)")
+	// two texts whose diagnostics differ only in where a range ends
+	pool = append(pool, "set_tx_meta(12, \"x\")\n", "set_tx_meta(123456, \"x\")\n")
 	return pool
 }
 
@@ -353,6 +423,7 @@ func checkC19(cc any) *ev.Verdict {
 	inflight(c)
 	st := verifapi.LspInitialState()
 	latest := map[string]string{}
+	view := map[string]string{} // uri -> last published diagnostics
 	changes := 0
 	fresh := func(uri, text string) (*verifapi.LspState, lspResult) {
 		fs := verifapi.LspInitialState()
@@ -390,18 +461,52 @@ func checkC19(cc any) *ev.Verdict {
 			}
 			latest[op.URI] = text
 			_, fr := fresh(op.URI, text)
-			if fr.Panic != "" {
+			if fr.Panic != "" || len(fr.Notifs) > 1 {
 				v.Skipped = "server panic on this text (C18 owns crashes)"
 				return v
 			}
-			if len(r.Notifs) != 1 {
-				return v.Failf("notification-count", "step %d (%s %s): %d notifications published, expected exactly one: %v", i, op.Kind, op.URI, len(r.Notifs), r.Notifs)
+			if len(fr.Notifs) == 0 {
+				// a server that publishes nothing for a first open: the client holds the empty set
+				fr.Notifs = []string{"textDocument/publishDiagnostics uri=" + op.URI + " []"}
 			}
-			if !strings.Contains(r.Notifs[0], " uri="+op.URI+" ") {
-				return v.Failf("notification-uri", "step %d (%s %s): diagnostics published for another document: %s", i, op.Kind, op.URI, r.Notifs[0])
+			// what the client holds for a document is the last set published for it; after an
+			// open or a change it must be what a fresh analysis of the latest text publishes.
+			// (Not every notification has to be followed by a publication - a server may skip
+			// one that would repeat what the client already has - and a server may publish for
+			// other documents too, as long as each set is right for its document.)
+			for _, n := range r.Notifs {
+				u := notifURI(n)
+				text2, known := latest[u]
+				if !known {
+					return v.Failf("notification-uri", "step %d (%s %s): diagnostics published for a document that was never opened: %s", i, op.Kind, op.URI, n)
+				}
+				want := fr.Notifs[0]
+				if u != op.URI {
+					_, fr2 := fresh(u, text2)
+					if fr2.Panic != "" || len(fr2.Notifs) > 1 {
+						v.Skipped = "server panic on this text (C18 owns crashes)"
+						return v
+					}
+					want = "textDocument/publishDiagnostics uri=" + u + " []"
+					if len(fr2.Notifs) == 1 {
+						want = fr2.Notifs[0]
+					}
+				}
+				if n != want {
+					return v.Failf("stale-diagnostics", "step %d (%s %s): published %s\na fresh analysis of the latest text of that document publishes %s", i, op.Kind, op.URI, n, want)
+				}
+				view[u] = n
 			}
-			if r.Notifs[0] != fr.Notifs[0] {
-				return v.Failf("stale-diagnostics", "step %d (%s %s): published %s\na fresh analysis of the latest text publishes %s\ntext: %q", i, op.Kind, op.URI, r.Notifs[0], fr.Notifs[0], text)
+			have, ok := view[op.URI]
+			if !ok {
+				have = "textDocument/publishDiagnostics uri=" + op.URI + " []"
+			}
+			if have != fr.Notifs[0] {
+				return v.Failf("stale-diagnostics", "step %d (%s %s): %d notification(s) published; the client is left with %s\na fresh analysis of the latest text publishes %s\ntext: %q", i, op.Kind, op.URI, len(r.Notifs), have, fr.Notifs[0], text)
+			}
+			// and, independently of the server, what the analysis of the text reports
+			if msg, ok := heldMatchesLibrary(have, text); !ok {
+				return v.Failf("diagnostics-content", "step %d (%s %s): %s\ntext: %q", i, op.Kind, op.URI, msg, text)
 			}
 		case "hover", "definition", "symbols":
 			method := map[string]string{"hover": "textDocument/hover", "definition": "textDocument/definition", "symbols": "textDocument/documentSymbol"}[op.Kind]
